@@ -266,6 +266,7 @@ func (a Array) Has(value Value) bool {
 
 func (a Array) withItem(index int, item Value) Set {
 	b := a
+	at := index
 	index -= a.offset
 	switch {
 	case index < 0:
@@ -283,7 +284,9 @@ func (a Array) withItem(index int, item Value) Set {
 		copy(b.values, a.values)
 	}
 	if b.values[index] != nil {
-		panic("superimposed array items not supported yet")
+		// An Array cannot hold two items at one index: fall back to a generic set of item
+		// tuples, as String.with and Bytes.with do for the same situation.
+		return newGenericSetFromSet(a).With(NewArrayItemTuple(at, item))
 	}
 	b.values[index] = item
 	b.count++
